@@ -21,6 +21,12 @@ METHODS = [  # python name, Coq constructor, generated definition
     ("pop", "MPop", "gen_pop"), ("popall", "MPopAll", "gen_popall"), ("popitem", "MPopItem", "gen_popitem"),
     ("poplast", "MPopLast", "gen_poplast"),
 ]
+EXTENDED = [("update", "MUpdate", "gen_update"), ("update_extend", "MUpdateExtend", "gen_update_extend"),
+            ("__ior__", "MIOr", "gen_ior")]
+ENABLE_EXTENDED = False
+if ENABLE_EXTENDED:
+    METHODS = METHODS + EXTENDED
+KWARGS_OK = {"update", "update_extend"}      # methods whose **F is translated (second argument of the call)
 CTOR = {py: c for py, c, _ in METHODS}
 FIELDS = {"PREV": "FPrev", "NEXT": "FNext", "KEY": "FKey", "VALUE": "FVal"}
 CLEAR_LL_TRY = "try:\n    _map = self._map\nexcept AttributeError:\n    _map = self._map = {}\n    self.root = []"
@@ -39,11 +45,14 @@ class Method:
     def __init__(self, fn, sigs):
         self.fn, self.sigs, self.where = fn, sigs, "OrderedMultiDict." + fn.name
         a = fn.args
-        if a.vararg or a.kwarg or a.kwonlyargs or a.posonlyargs:
+        if a.vararg or a.kwonlyargs or a.posonlyargs or (a.kwarg and fn.name not in KWARGS_OK):
             self.bad("signature with * / ** / keyword-only parameters")
         self.vars = {}
         for p in a.args[1:]:
             self.vars[p.arg] = len(self.vars)
+        if a.kwarg:
+            self.vars[a.kwarg.arg] = len(self.vars)     # **F is passed as one more (mapping) argument
+        self.set_add_alias = {}   # local name -> set variable (x = seen.add)
         self.meth_alias = {}      # local name -> python method name (x = self._insert)
         self.super_alias = set()  # local names bound to super()
         self.map_alias = set()    # local names bound to self._map (only in _clear_ll)
@@ -85,6 +94,8 @@ class Method:
             self.bad("missing arguments", node)
         if missing:
             given += [self.const_default(d) for d in defaults[len(defaults) - missing:]]
+        if pyname in KWARGS_OK:
+            given.append("ENoKw")
         c = CTOR[pyname]
         if len(given) == 0:
             return "(ECall0 %s)" % c
@@ -108,8 +119,26 @@ class Method:
             if e.id == "self":
                 if boolean:
                     return "ETruthSelf"
-                self.bad("self used as a value", e)
+                return "ESelf"
             return "(EVar %d)" % self.var(e.id)
+        if isinstance(e, ast.Tuple) and not e.elts:
+            return "EEmptyTuple"
+        if isinstance(e, ast.Compare) and len(e.ops) == 1 and isinstance(e.ops[0], ast.Is) \
+                and _is_self(e.comparators[0]):
+            return "(EIsSelf %s)" % self.expr(e.left)
+        if isinstance(e, ast.Compare) and len(e.ops) == 1 and isinstance(e.ops[0], (ast.In, ast.NotIn)):
+            inner = None
+            if _is_self(e.comparators[0]):
+                inner = "(EStoreContains %s)" % self.expr(e.left)       # dict.__contains__ is inherited
+            elif isinstance(e.comparators[0], ast.Name):
+                inner = "(EInSet %s %s)" % (self.expr(e.left), self.expr(e.comparators[0]))
+            if inner is None:
+                self.bad("membership test", e)
+            return inner if isinstance(e.ops[0], ast.In) else "(ENot %s)" % inner
+        if isinstance(e, ast.GeneratorExp):
+            if ast.unparse(e) == "((k, E[k]) for k in E.keys())":
+                return "(EGenKV %s)" % self.expr(ast.Name(id="E"))
+            self.bad("generator expression", e)
         if isinstance(e, ast.Constant) and e.value is None:
             return "ENone"
         if _self_attr(e, "root"):
@@ -127,6 +156,8 @@ class Method:
                 return self.call_method("__getitem__", [s], [], e)
             if self.is_map(e.value):
                 return "(EMapGet %s)" % self.expr(s)
+            if isinstance(e.value, ast.Name) and e.value.id in ("E", "F") and isinstance(s, ast.Name):
+                return "(EArgGet %s %s)" % (self.expr(e.value), self.expr(s))
             self.bad("subscript", e)
         if isinstance(e, ast.List):
             if len(e.elts) == 4:
@@ -154,6 +185,19 @@ class Method:
 
     def call(self, e):
         f = e.func
+        src = ast.unparse(e)
+        if src == "isinstance(E, OrderedMultiDict)":
+            return "(EIsOMD %s)" % self.expr(ast.Name(id="E"))
+        if src in ("callable(getattr(E, 'keys', None))", "hasattr(E, 'keys')"):
+            return "(EHasKeys %s)" % self.expr(ast.Name(id="E"))
+        if src == "E.keys()":
+            return "(EArgKeys %s)" % self.expr(ast.Name(id="E"))
+        if src == "E.iteritems(multi=True)":
+            return "(EArgItemsMulti %s)" % self.expr(ast.Name(id="E"))
+        if src == "iter(E.items())":
+            return "(EArgItems %s)" % self.expr(ast.Name(id="E"))
+        if src == "set()":
+            return "ESetNew"
         if isinstance(f, ast.Name):
             if f.id == "list" and len(e.args) == 1 and not e.keywords:
                 return "(EListOf %s)" % self.expr(e.args[0])
@@ -211,6 +255,12 @@ class Method:
                 t = s.targets[0]
                 if isinstance(t, ast.Name):
                     v = s.value
+                    if isinstance(v, ast.Attribute) and v.attr == "add" and isinstance(v.value, ast.Name) \
+                            and v.value.id in self.vars:             # x = seen.add
+                        if t.id in self.vars:
+                            self.bad("alias re-uses a variable", s)
+                        self.set_add_alias[t.id] = v.value.id
+                        return None
                     if _self_attr(v) and v.attr in CTOR:         # x = self._insert
                         if t.id in self.vars:
                             self.bad("alias of a method re-uses a variable", s)
@@ -250,6 +300,8 @@ class Method:
         if isinstance(s, ast.Expr) and isinstance(s.value, ast.Call):
             c = s.value
             f = c.func
+            if isinstance(f, ast.Name) and f.id in self.set_add_alias and len(c.args) == 1 and not c.keywords:
+                return "(SSetAdd %d %s)" % (self.var(self.set_add_alias[f.id]), self.expr(c.args[0]))
             if isinstance(f, ast.Attribute) and not c.keywords:
                 if isinstance(f.value, ast.Name) and f.value.id in self.map_alias and f.attr == "clear" and not c.args:
                     return "SMapClear"
@@ -281,6 +333,12 @@ class Method:
             it = self.expr(s.iter)
             x = self.var(s.target.id, define=True)
             return "(SFor %d %s %s)" % (x, it, self.block(s.body))
+        if isinstance(s, ast.For) and not s.orelse and isinstance(s.target, ast.Tuple) and len(s.target.elts) == 2 \
+                and all(isinstance(t, ast.Name) for t in s.target.elts):
+            it = self.expr(s.iter)
+            x = self.var(s.target.elts[0].id, define=True)
+            y = self.var(s.target.elts[1].id, define=True)
+            return "(SFor2 %d %d %s %s)" % (x, y, it, self.block(s.body))
         if isinstance(s, ast.Try) and not s.orelse and not s.finalbody and len(s.handlers) == 1:
             h = s.handlers[0]
             if isinstance(h.type, ast.Name) and h.type.id == "KeyError" and h.name is None:
@@ -318,6 +376,8 @@ def generate(repo):
         if fn.decorator_list:
             raise Unsupported("method %s is decorated" % py)
         sigs[py] = ([a.arg for a in fn.args.args[1:]], fn.args.defaults)
+        if (fn.args.kwarg is not None) != (py in KWARGS_OK):
+            raise Unsupported("method %s: ** parameter appeared or disappeared" % py)
     out = ["(* generated by harness/translators/c01_src.py from the current boltons/dictutils.py; do not edit *)",
            "From Boltons Require Import Lib.Prelude Spec.C01_Spec Model.C01_Model Model.C01_Ptr Model.C01_PModel "
            "Model.C01_SrcLang.", ""]
